@@ -278,5 +278,11 @@ def r7_total_status_expansion(chk: Check) -> None:
                           fn.loc(c))
 
 
+def r8_forbid_each(chk: Check) -> None:
+    from . import shared
+
+    shared.forbid_each_property_rule(chk, "C04.R8", "writeOnly properties in response schemas")
+
+
 def rules(tier: str) -> list:  # type: ignore[type-arg]
-    return [r1_status_lookup, r2_media_type, r3_collected_raise, r4_run_checks, r5_registered, r6_copy_discipline, r7_total_status_expansion]
+    return [r1_status_lookup, r2_media_type, r3_collected_raise, r4_run_checks, r5_registered, r6_copy_discipline, r7_total_status_expansion, r8_forbid_each]
